@@ -24,6 +24,8 @@ func init() {
 		func(t *vcTrial) { vcRunC05(t, vc05Cfg{Network: "tcp", Handler: "panic", Actors: []string{"fin", "shutdown"}, OnConnect: true}) },
 		func(t *vcTrial) { vcRunC05(t, vc05Cfg{Network: "unix", Handler: "block", Actors: []string{"fin", "close", "input"}, Closers: 4}) },
 		func(t *vcTrial) { vcRunC05(t, vc05Cfg{Network: "tcp", Handler: "blockread", Actors: []string{"detach"}, Detach: true}) },
+		func(t *vcTrial) { vcRunC05(t, vc05Cfg{Network: "tcp", Handler: "block", Actors: []string{"ioerror", "close"}, Closers: 2}) },
+		func(t *vcTrial) { vcRunC05(t, vc05Cfg{Network: "unix", Handler: "drain", Actors: []string{"ioerror"}, OnConnect: true}) },
 		func(t *vcTrial) { vcRunC05PrepareClose(t, 1, "tcp") },
 		func(t *vcTrial) { vcRunC05PrepareClose(t, 3, "unix") },
 	}
@@ -212,6 +214,9 @@ func vcScenC05(t *vcTrial) {
 	if cfg.Closers > 0 {
 		cfg.Actors = append(cfg.Actors, "close")
 	}
+	if !cfg.Detach && !cfg.ClientNP && r.chance(25) {
+		cfg.Actors = append(cfg.Actors, "ioerror")
+	}
 	switch r.intn(3) {
 	case 0:
 		cfg.Mode = vcModeNone
@@ -344,6 +349,18 @@ func vcRunC05(t *vcTrial, cfg vc05Cfg) {
 			}
 		case "input":
 			spawn(a, func() { cli.Write([]byte("more-input-for-the-handler")) })
+		case "ioerror":
+			// "poller error": the poller's next readv on this connection fails hard
+			errno := []syscall.Errno{syscall.ECONNRESET, syscall.ETIMEDOUT, syscall.ENOMEM, syscall.EIO}[r.intn(4)]
+			fp := &vcFaultPlan{Rules: []*vcFaultRule{{Site: vfltReadv, Errno: errno, FD: rec.FD, Count: 1}}}
+			defer func() {
+				vcSetFaults(nil)
+				t.Stat("poller_read_errors_injected", int(fp.Fired()))
+			}()
+			spawn(a, func() {
+				vcSetFaults(fp)
+				cli.Write([]byte("input-whose-read-fails"))
+			})
 		case "shutdown":
 			spawn(a, func() {
 				ctx, cancel := context.WithTimeout(context.Background(), 50*time.Millisecond)
